@@ -12,7 +12,8 @@ var verifYieldFunc atomic.Value // func(point string, pack *msgstream.MsgPack)
 
 // SetVerifYieldFunc registers the harness callback invoked at the scheduling points of the pack pipeline:
 // "max" (before reading the channel clock), "lock" (before taking the channel lock), "send" (before the
-// pack is put on the output queue), "done" (the pack has been handled). The callback may block.
+// pack is put on the output queue), "done" (the pack has been handled), and of the channel manager: "wait-recv" (a waiting
+// handler has received a forwarded channel and is about to take the manager lock; pack is nil). The callback may block.
 func SetVerifYieldFunc(f func(point string, pack *msgstream.MsgPack)) { verifYieldFunc.Store(f) }
 
 func verifYield(point string, pack *msgstream.MsgPack) {
